@@ -72,7 +72,7 @@ __asm__(
 );
 
 static void on_sig(int s, siginfo_t *si, void *uc_) {
-  if (switch_fs) __asm__ volatile("wrfsbase %0" :: "r"(host_fs));
+  if (have_fsgsbase) __asm__ volatile("wrfsbase %0" :: "r"(host_fs));
   ucontext_t *uc = uc_;
   greg_t *g = uc->uc_mcontext.gregs;
   guest.gpr[0]=g[REG_RAX]; guest.gpr[1]=g[REG_RCX]; guest.gpr[2]=g[REG_RDX]; guest.gpr[3]=g[REG_RBX];
